@@ -4,7 +4,11 @@ Decides:
  P.census     every panic-capable site of the crate (bounds checks, overflow asserts, Index/slice ops, unwrap/expect,
               explicit panics, drain/remove/truncate, process::exit) in every analysed configuration is covered by
               the hand-reviewed audit (audit/panic_audit.json: per function and site class, with the reason; sites of unreviewed helpers are charged to the reviewed functions that call them);
-              a new site, a new kind in a function or a higher count is a violation.
+              budgets are per site CLASS (index, str-cut, vec-op, explicit, sub ...), so `&s[..i]` vs `s.split_at(i)` or
+              `.unwrap()` vs `match .. None => unreachable!()` are the same obligation; more sites of a class than were
+              reviewed, or a site not reachable only from reviewed functions, is a violation.
+ P.grow       additions/multiplications of sizes, counts and indices of in-memory data cannot overflow usize before memory
+              is exhausted: discharged automatically unless an operand is a huge constant or a number parsed from text.
  P.str-index  byte/char discipline: every index used to slice a str/String comes from byte-offset sources
               (char_indices, len, len_utf8, find, token byte counts ...), never from a character count/enumerate.
  P.nonempty   constructor invariants behind `[0]` / todo!(): NamedArg and ParseCommand.longs are only built with
@@ -12,12 +16,16 @@ Decides:
  P.dead-arm   Block::Meta (todo!() arms of the renderers) has no producer.
  P.exit       process::exit/abort sites are the listed ones (run; two completion-protocol exits = known findings).
  I.invariant  ParseAdjacent's unreachable!() is excluded by check_invariants: positional_invariant_check panics for an
-              adjacent group without a first item (sibling agreement).
+              adjacent group without a first item (sibling agreement); ArgRangesIter yields only start positions it
+              compared with the end of the scope (ParseAdjacent slices the ledger with `start..scope.end`).
  T.loops      every loop is driven by a finite std iterator (auto-discharged: the exit tests the None of a
               next()/find() on a slice/vec/str/range-like iterator that every iteration passes), or is a listed open
-              loop whose variant is checked (parse_option strict progress + *len update, cursor +1 iterators).
+              loop whose variant is checked (parse_option strict progress + *len update with ONE counter per repetition,
+              every way back to the call crossing a progress witness; cursor +1 iterators; Splitter: a word ends only at
+              a separator that the prefix handlers consume, so an empty word can never be yielded forever).
  T.recursion  every call-graph cycle is a listed structural recursion (walkers over Meta / sections, Parser::eval over
-              the finite parser tree).
+              the finite parser tree) or descends structurally (every call inside the cycle passes a strict sub-part of
+              a parameter of the caller).
  G.group-flag the no-nesting flag of append_meta::go is monotone (never reset to false on the way down), which
               find_group / write_help_item_groups rely on to drain non-empty ranges.
  U.purity     ambient effects (env, args, process, fs, time, io, thread_local) only at listed sites; no statics; no
